@@ -88,6 +88,12 @@ func setBag(s *slip.Scope, obj *flavors.Instance, value, path slip.Object, depth
 	if x == nil {
 		obj.Any = v
 	} else {
+		for _, frag := range x {
+			// Setting an element extends the list up to the index.
+			if n, ok := frag.(jp.Nth); ok && (slip.ArrayMaxDimension < int(n) || int(n) < -slip.ArrayMaxDimension) {
+				slip.ErrorPanic(s, depth, "the index %d of path %s is too large", int(n), x)
+			}
+		}
 		x.MustSet(obj.Any, v)
 		if !x.Normal() {
 			switch v.(type) {
